@@ -102,3 +102,45 @@ def cases(seed=0):
                 IM.MarginalImputer(model, strat, stor(lambda: S.BatchStorage(store_targets=False), 3)()),
                 {'feature_subset': set(sub), 'x_i': {'f': 5.0, 'g': 'cur'}, 'n_samples': 2})))
     return out
+
+
+def explainer_cases(seed=0):
+    """reachable explainer states (built by real explain_one calls) for the functions of contracts.explainer / batch"""
+    imp = _imp()
+    import random as _r
+    import numpy as np
+    EX = imp('ixai.explainer')
+    ST = imp('ixai.storage')
+    IM = imp('ixai.imputer')
+    out = []
+
+    def model(x):
+        return {'output': 2.0 * float(x['a']) - float(x['b'])}
+
+    def loss(y, p):
+        return (float(y) - p['output']) ** 2
+
+    def built(kind, n, dynamic):
+        def make():
+            _r.seed(seed)
+            np.random.seed(seed)
+            st = ST.GeometricReservoirStorage(size=3, store_targets=False) if dynamic else ST.UniformReservoirStorage(size=3, store_targets=False)
+            E = EX.IncrementalPFI if kind == 'pfi' else EX.IncrementalSage
+            ex = E(model, loss, ['a', 'b'], storage=st, imputer=IM.MarginalImputer(model, 'joint', st), smoothing_alpha=0.5,
+                   n_inner_samples=2, dynamic_setting=dynamic)
+            rng = _r.Random(seed)
+            for t in range(n):
+                ex.explain_one({'a': rng.random(), 'b': rng.random()}, rng.random())
+            return ex
+        return make
+    for kind, key in (('pfi', 'IncrementalPFI.explain_one'), ('sage', 'IncrementalSage.explain_one')):
+        for n in (0, 1, 3):
+            for dynamic in (False, True):
+                out.append((key, lambda kind=kind, n=n, dynamic=dynamic: (built(kind, n, dynamic)(),
+                                                                           {'x_i': {'a': 0.25, 'b': 0.75}, 'y_i': 1.0})))
+    for n in (2, 3):
+        out.append(('Explainer.importance_values', lambda n=n: (built('sage', n, True)(), {})))
+        out.append(('Explainer.variances', lambda n=n: (built('pfi', n, False)(), {})))
+        out.append(('Explainer.explained_loss', lambda n=n: (built('sage', n, False)(), {})))
+        out.append(('Explainer.get_confidence_bound', lambda n=n: (built('pfi', n, True)(), {'delta': 0.1})))
+    return out
